@@ -29,6 +29,12 @@ func TestReplay(t *testing.T) {
 		key, msg = replayScript(t, f.Script, monitorC11)
 	case "TestC03Timely", "TestC03Arbitrary":
 		key, msg = replayScript(t, f.Script, replayC03)
+	case "TestC06":
+		key, msg = replayScript(t, f.Script, monitorC06)
+	case "TestC09":
+		key, msg = replayScript(t, f.Script, monitorC09)
+	case "TestC07Envelope":
+		key, msg = replayC07Env(t, f.Script)
 	default:
 		t.Fatalf("no replay handler for %s", f.Test)
 	}
